@@ -132,7 +132,7 @@ def classify(line):
     return {"ev": "Out", "kind": "other", "text": line[:80]}
 
 
-def run_session(cli, cmds, pacing="immediate", hang_s=25.0):
+def run_session(cli, cmds, pacing="immediate", hang_s=60.0):
     """cmds: list of dicts {"line": text (str or bytes), "kind": ..., plus structured fields for the trace}.
     Returns the list of trace events."""
     ev = []
@@ -146,7 +146,7 @@ def run_session(cli, cmds, pacing="immediate", hang_s=25.0):
         ev.append(dict(meta, ev="In"))
         if c["kind"] == "wait":
             # the model lets the search finish by itself here: wait for its bestmove
-            lines, ok = eng.read_until(lambda l: l.startswith("bestmove"), c.get("timeout", 12.0))
+            lines, ok = eng.read_until(lambda l: l.startswith("bestmove"), c.get("timeout", 60.0))
             ev += [classify(l) for l in lines]
             ev.append({"ev": "WaitEnd", "got": ok})
             continue
